@@ -1606,7 +1606,20 @@ class Irc(IrcCommandDispatcher, log.Firewalled):
                       self.state.capabilities_req - capabilities_responded)
             pass # Do nothing, we'll get more
 
+    def _abortIfSaslRequired(self):
+        """If supybot.networks.<network>.sasl.required is set and we are not
+        authenticated, aborts the connection. Returns whether it did."""
+        if self.sasl_authenticated or \
+                not conf.supybot.networks.get(self.network).sasl.required():
+            return False
+        log.error('%s: SASL is required but authentication did not succeed, '
+                  'aborting connection.', self.network)
+        self.driver.reconnect(wait=True)
+        return True
+
     def endCapabilityNegociation(self, msg):
+        if self._abortIfSaslRequired():
+            return
         self.state.fsm.on_cap_end(self, msg)
         self.sendMsg(ircmsgs.IrcMsg(command='CAP', args=('END',)))
 
@@ -1627,6 +1640,7 @@ class Irc(IrcCommandDispatcher, log.Firewalled):
         elif conf.supybot.networks.get(self.network).sasl.required():
             log.error('None of the configured SASL mechanisms succeeded, '
                     'aborting connection.')
+            self.driver.reconnect(wait=True)
         else:
             self.sasl_current_mechanism = None
             self.state.fsm.on_sasl_auth_finished(self, msg)
@@ -2038,10 +2052,15 @@ class Irc(IrcCommandDispatcher, log.Firewalled):
         self.outstandingPing = False
 
     def do375(self, msg):
+        if self._abortIfSaslRequired():
+            # eg. the server ignored CAP and registered us right away.
+            return
         self.state.fsm.on_start_motd(self, msg)
         log.info('Got start of MOTD from %s', self.server)
 
     def do376(self, msg):
+        if self._abortIfSaslRequired():
+            return
         self.state.fsm.on_end_motd(self, msg)
         log.info('Got end of MOTD from %s', self.server)
         self.afterConnect = True
